@@ -198,6 +198,83 @@ class C12(NetCheck):
     def profile_for(self, r):
         return r.choice(["cpu_mix", "cpu_mix", "mixed"])
 
+    def gen_options(self, r):
+        opts, cfg = netgen.gen_options(r)
+        if "--cpu-tensor-alignment" not in opts and r.random() < 0.3:  # alignment is one of the quantities of the property
+            opts += ["--cpu-tensor-alignment", str(r.choice([32, 64, 128, 256, 512]))]
+        return opts, cfg
+
+    def post(self, desc, res, out):
+        """Artefact-level halves of the property, evaluated on the plan the simulated runtime has just executed:
+        (b) requested CPU tensor alignment, (c) scratch tensor at offset zero spanning the operator's own inputs/outputs and
+        every arena byte its stream touched, (d) reported SRAM/DRAM figures (summary CSV and console) >= the extent the plan needs."""
+        import re
+
+        plan = res["plan"]
+        m = plan.m
+        opts = desc["opts"]
+        layers = [L["op"] for L in desc["recipe"]["layers"]]
+        pr = out["counters"].setdefault("probe", {})
+
+        def V(oracle, **kw):
+            out["viol"].append(dict(prop="C12", oracle=oracle, layers=layers, sig=dict(oracle=oracle, kind=kw.pop("kind", None)), **kw))
+
+        align = int(netsim.opt_value(opts, "--cpu-tensor-alignment", 16))
+        pr["alignment_gt_16"] = int(align > 16)
+        scratch_like = set()
+        for e in plan.eops.values():
+            scratch_like.add(e["scratch_t"].idx)
+            scratch_like.add(e["fast_t"].idx)
+        n_checked = 0
+        for t in m.tensors:
+            o = plan.offsets[t.idx]
+            if o < 0:
+                continue
+            n_checked += 1
+            if o % align:
+                V("cpu_tensor_misaligned", tensor=t.idx, tname=t.name, offset=int(o), alignment=align, kind="scratch" if t.idx in scratch_like else None)
+        out["counters"]["arena_tensors_checked"] = n_checked
+        for oi, e in sorted(plan.eops.items()):
+            so = plan.offsets[e["scratch_t"].idx]
+            ssize = e["scratch_t"].elems()
+            if so != 0:
+                V("scratch_not_at_offset_zero", op=oi, offset=int(so))
+                continue
+            for what, lst in (("input", e["fm_inputs"]), ("output", e["outputs"])):
+                for ti in lst:
+                    o = plan.offsets[ti]
+                    if o < 0:
+                        continue  # reported by the runtime peer (npu_output_not_in_arena / input_not_in_arena)
+                    if o + m.tensors[ti].nbytes() > ssize:
+                        V("scratch_does_not_span_operand", op=oi, what=what, tensor=ti, end=int(o + m.tensors[ti].nbytes()), scratch=int(ssize))
+            pr["scratch_span_checked"] = 1
+        # (d) reported figures
+        spilling = netsim.is_spilling(opts)
+        fast = set(e["fast_t"].idx for e in plan.eops.values()) if spilling else set()  # lives in its own SRAM, not in the arena
+        need_arena = max([plan.offsets[t.idx] + t.nbytes() for t in m.tensors if plan.offsets[t.idx] >= 0 and t.idx not in fast] or [0])
+        need_arena = max(need_arena, res["facts"].get("arena_touch_max", 0) or 0)
+        need = {}
+        if spilling:
+            need["dram"] = need_arena
+            need["sram"] = max([e["fast_t"].elems() for e in plan.eops.values()] or [0])
+        else:
+            need["sram"] = need_arena
+        summ = res.get("summary") or {}
+        cons = res.get("console") or ""
+        for area, nbytes in need.items():
+            if nbytes <= 0:
+                continue
+            col = summ.get(area + "_memory_used")
+            if col is not None:
+                pr["csv_memory_checked"] = 1
+                if float(col) * 1024.0 + 0.5 < nbytes:
+                    V("reported_memory_below_plan", where="summary_csv", area=area, reported_bytes=float(col) * 1024.0, needed_bytes=int(nbytes), kind=area)
+            mm = re.search(r"^Total %s used\s+([0-9.]+) KiB" % area.upper(), cons, re.M)
+            if mm:
+                pr["console_memory_checked"] = 1
+                if float(mm.group(1)) + 0.005 + 1e-9 < nbytes / 1024.0:  # printed with two decimals
+                    V("reported_memory_below_plan", where="console", area=area, reported_kib=float(mm.group(1)), needed_bytes=int(nbytes), kind=area)
+
 
 # ======================================================================================================== C11
 NEVER_NPU = {"CUSTOM", "DEQUANTIZE", "FLOOR", "CEIL", "NEG", "SIN", "GATHER", "CAST", "ROUND"}
